@@ -196,4 +196,24 @@ def Quiet (k : Key) (v : String) : Op σ → Prop
   | .lookup _ => True
   | .systemData _ => True
 
+/-! ## metadata: what `_extract_meta` reads -/
+
+/-- a Kubernetes `metadata` object as offered: the two fields the cache reads, `generation`, and
+    whatever else it carries (uid, labels, annotations, managedFields, creationTimestamp, …) -/
+structure Meta where
+  name : Option String
+  resourceVersion : Option String
+  generation : Option Nat
+  others : List (String × String)
+  deriving Repr
+
+/-- `prepare_and_cache(kind, preparer, metadata, spec, sys)`: the key is (kind, `metadata.name`), the
+    version is `metadata.resourceVersion`; nothing else of the metadata takes part -/
+def offerOf (kind : Nat) (m : Meta) (spec : σ) (sys : Option Nat) (cycle : Bool) : Op σ :=
+  .offer (kind, m.name.getD "") m.resourceVersion spec sys cycle
+
+/-- `delete_resource_from_cache(kind, metadata)` -/
+def deleteMetaOf (kind : Nat) (m : Meta) : Op σ :=
+  .deleteMeta (kind, m.name.getD "") m.resourceVersion
+
 end Koreo.Cache
